@@ -338,3 +338,40 @@ func SplitCat(m string) (cat, msg string) {
 	}
 	return "", m
 }
+
+// SpecCheck compares the implementation's output with the Lean *specification* of the request
+// (Spec.data, Spec.required, Spec.errsF, shipped in the model's reply): equal data, every required
+// error reported, every reported error a field error, and the Lean list of field errors equal (as a
+// set) to the one the harness reads off the world.
+func SpecCheck(c *Case, real, model *Observed) string {
+	if model == nil || !model.HasSpec {
+		return ""
+	}
+	if real.Data != model.SpecData {
+		return fmt.Sprintf("data: implementation %s, Spec.data %s", real.Data, model.SpecData)
+	}
+	have := map[ErrObs]bool{}
+	for _, e := range real.Errors {
+		have[e] = true
+	}
+	for _, e := range model.SpecRequired {
+		if !have[e] {
+			return fmt.Sprintf("required error %s %q (Spec.required) is not reported: %v", e.Path, e.Msg, real.Errors)
+		}
+	}
+	all := map[ErrObs]bool{}
+	for _, e := range model.SpecAll {
+		all[e] = true
+	}
+	for _, e := range real.Errors {
+		if !all[e] {
+			return fmt.Sprintf("reported error %s %q is not in Spec.errsF", e.Path, e.Msg)
+		}
+	}
+	goAll := AllErrors(c)
+	se := func(e ErrObs) string { return e.Path + ":" + e.Msg }
+	if keys(all, se) != keys(goAll, se) {
+		return fmt.Sprintf("field errors: harness {%s}, Spec.errsF {%s}", keys(goAll, se), keys(all, se))
+	}
+	return ""
+}
